@@ -33,19 +33,58 @@ def firstDiff (a b : List String) : Json :=
                             ("impl", Json.arr (ys.take 12 |>.map Json.str).toArray)]
   go 0 a b
 
+/-! slices: the part of both files a property's theorems and decider depend on -/
+def wiringBinds : List String := ["id_i", "id_route_map_i", "route_table_i", "floo_req_i", "floo_req_o",
+  "floo_rsp_i", "floo_rsp_o", "floo_wide_i", "floo_wide_o"]
+def wiringParams : List String := ["RouteAlgo", "NumRoutes", "NumInputs", "NumOutputs", "NumAddrRules",
+  "addr_rule_t", "RouteCfg", "id_t", "Sam", "route_t", "dst_t"]
+def isPortsName (s : String) : Bool := s.startsWith "axi_" || s.startsWith "ChimneyCfg" || s.startsWith "AxiCfg"
+
+def sliceItemRouting : Sv.Item → Option Sv.Item
+  | .typedefEnum b ms n => some (.typedefEnum b ms n)
+  | .typedef t n => if ["rob_idx_t", "port_id_t", "x_bits_t", "y_bits_t", "id_t", "route_t", "vc_id_t"].contains n
+                    then some (.typedef t n) else none
+  | .typedefStruct fs n => if n == "id_t" || n == "sam_rule_t" then some (.typedefStruct fs n) else none
+  | .localparam t n v => if ["SamNumRules", "Sam", "RoutingTables", "RouteCfg", "NumSamRules"].contains n
+                         then some (.localparam t n v) else none
+  | _ => none
+
+def sliceItemWiring : Sv.Item → Option Sv.Item
+  | .inst m ps n bs => some (.inst m (ps.filter fun (p, _) => wiringParams.contains p) n
+                                     (bs.filter fun b => wiringBinds.contains b.port))
+  | .macro _ _ => none
+  | it => some it
+
+def sliceItemPorts : Sv.Item → Option Sv.Item
+  | .inst m ps n bs => some (.inst m (ps.filter fun (p, _) => isPortsName p) n (bs.filter fun b => isPortsName b.port))
+  | _ => none
+
+def sliceTokens (which : String) (p : Sv.Package) (m : Sv.Module) : List String :=
+  match which with
+  | "routing+wiring" =>
+    (p.items.filterMap sliceItemRouting).flatMap Sv.Item.render ++ (m.items.filterMap sliceItemWiring).flatMap Sv.Item.render
+  | "wiring" => (m.items.filterMap sliceItemWiring).flatMap Sv.Item.render
+  | "ports" =>
+    (p.items.filter fun it => match it with
+      | .localparam t _ _ => t.words == ["axi_cfg_t"]
+      | .typedef _ n => n.endsWith "_t" && (n.endsWith "_addr_t" || n.endsWith "_data_t" || n.endsWith "_strb_t" || n.endsWith "_id_t" || n.endsWith "_user_t") && n != "id_t"
+      | _ => false).flatMap Sv.Item.render ++
+    m.ports.flatMap Sv.Port.render ++ (m.items.filterMap sliceItemPorts).flatMap Sv.Item.render
+  | _ => p.render ++ m.render
+
 /-- run the Lean model of the generator and compare its token streams with the implementation's -/
-def modelCompare (d : Desc) (pkg top : Option (List String)) : Json :=
+def modelCompare (d : Desc) (impl : Option (Sv.Package × Sv.Module)) (slice : String) : Json :=
   match Model.gen d with
   | .error e => Json.mkObj [("status", "rejected"), ("cls", e.cls), ("msg", e.msg)]
   | .ok (p, m) =>
-    let pt := p.render
-    let tt := m.render
-    match pkg, top with
-    | some pkg, some top =>
-      Json.mkObj [("status", "ok"), ("pkgEqual", pt == pkg), ("topEqual", tt == top),
-                  ("pkgDiff", if pt == pkg then Json.null else firstDiff pt pkg),
-                  ("topDiff", if tt == top then Json.null else firstDiff tt top)]
-    | _, _ => Json.mkObj [("status", "ok")]
+    match impl with
+    | some (ip, im) =>
+      let a := sliceTokens slice p m
+      let b := sliceTokens slice ip im
+      let full := p.render == ip.render && m.render == im.render
+      Json.mkObj [("status", "ok"), ("sliceEqual", a == b), ("fullEqual", full),
+                  ("diff", if a == b then Json.null else firstDiff a b)]
+    | none => Json.mkObj [("status", "ok")]
 
 def handle (j : Json) : Except String Json := do
   let cmd ← (← j.getObjVal? "cmd").getStr?
@@ -72,12 +111,15 @@ def handle (j : Json) : Except String Json := do
       | some (_, chk) => (pid, Json.arr ((chk d n).map findingJson).toArray)
       | none => (pid, Json.str "no such checker")
     let wantModel := (j.getObjValD "model").getBool?.toOption.getD false
-    let model := if wantModel then modelCompare d (some pkg) (some top) else Json.null
-    return Json.mkObj [("ok", true), ("findings", Json.mkObj res), ("model", model)]
+    let slice := (j.getObjValD "slice").getStr?.toOption.getD "all"
+    let model := if wantModel then modelCompare d (some (p, m)) slice else Json.null
+    let holds := props.filterMap fun pid =>
+      if pid == "C01" then some (pid, Json.bool (C01.holds d n)) else none
+    return Json.mkObj [("ok", true), ("findings", Json.mkObj res), ("model", model), ("holds", Json.mkObj holds)]
   | "model" =>
     -- accept/reject decision of the model alone (the implementation rejected, or CLI-level checks)
     match decodeDesc (← j.getObjVal? "desc") with
-    | .ok d => return Json.mkObj [("ok", true), ("model", modelCompare d none none)]
+    | .ok d => return Json.mkObj [("ok", true), ("model", modelCompare d none "all")]
     | .error e => return Json.mkObj [("ok", true), ("model", Json.mkObj [("status", "rejected"), ("cls", e.cls), ("msg", e.msg)])]
   | _ => throw s!"unknown cmd {cmd}"
 
